@@ -24,10 +24,10 @@ theorem local_before_registry (reg : Registry) (root : Json) (fuel : Nat) (ht : 
     (hl : assocGet rc1.localHelpers h.name = some dl) (_hr : assocGet reg.helpers h.name = some d) :
     renderHelper reg root (fuel + 1) ht rc out =
       (do
-        modify (fun rc => { rc with contentProduced := false,
-                                    indentBeforeWrite := rc1.indentBeforeWrite || (ht.indentBeforeWrite && rc.trailingNewline) })
+        modifyAux (fun rc =>
+          { rc with contentProduced := false, indentBeforeWrite := rc1.indentBeforeWrite || (ht.indentBeforeWrite && rc.trailingNewline) })
         callHelper reg root fuel dl h
-        modify (fun rc =>
+        modifyAux (fun rc =>
           if rc.contentProduced then { rc with indentBeforeWrite := rc.trailingNewline }
           else { rc with contentProduced := rc1.contentProduced, indentBeforeWrite := rc1.indentBeforeWrite })) rc1 out1 := by
   simp [renderHelper, RM.bnd_apply, hh, hl]
@@ -49,10 +49,10 @@ theorem hook_receives_call (reg : Registry) (root : Json) (fuel : Nat) (ht : Hel
     (hhook : assocGet reg.helpers (if ht.block then BLOCK_HELPER_MISSING else HELPER_MISSING) = some hook) :
     renderHelper reg root (fuel + 1) ht rc out =
       (do
-        modify (fun rc => { rc with contentProduced := false,
-                                    indentBeforeWrite := rc1.indentBeforeWrite || (ht.indentBeforeWrite && rc.trailingNewline) })
+        modifyAux (fun rc =>
+          { rc with contentProduced := false, indentBeforeWrite := rc1.indentBeforeWrite || (ht.indentBeforeWrite && rc.trailingNewline) })
         callHelper reg root fuel hook h
-        modify (fun rc =>
+        modifyAux (fun rc =>
           if rc.contentProduced then { rc with indentBeforeWrite := rc.trailingNewline }
           else { rc with contentProduced := rc1.contentProduced, indentBeforeWrite := rc1.indentBeforeWrite })) rc1 out1 := by
   simp [renderHelper, RM.bnd_apply, hh, hl, hr, hhook]
